@@ -9,7 +9,7 @@ ID = 'C04'
 LEVEL = 'exploration'
 BUDGET = {'quick': 150, 'thorough': 1800}
 CHUNK = 4
-RULE = ('Cases: a reference (1..4 contigs; contigs of length k-2/k/k+1; contigs without any window before, between and '
+RULE = ('Cases: a reference (1..4 contigs; a few per run of 80..600 kb in two contigs with samples carrying SNPs and ambiguity codes along the whole length; contigs of length k-2/k/k+1; contigs without any window before, between and '
         'after contigs with repeats; N runs; lower-case stretches; repeats within and across contigs in both orientations) '
         'and 1..3 (sometimes 9..24) samples, mapped with --threads 1..4 (mutated copies with SNPs/indels, dropped/reordered/reverse-complemented contigs, duplicated '
         'content giving ambiguity codes; or an arbitrary subset of reference windows with present/absent runs of every '
@@ -21,7 +21,7 @@ ASSUMPTIONS = ['the sample dictionary is taken from the real .skf (nk --full-inf
                'position-wise definition as in DESIGN.md section 6 C04']
 KINDS = ['random', 'shortcontig', 'pattern', 'selfmap', 'lower', 'palin']
 REQUIRED = {t: ['kind:' + x for x in KINDS] + ['flags:am', 'flags:rm', 'flags:am+rm', 'flags:none', 'repeat_masked_positions',
-                                                'selfmap_exact', 'lowercase_ref_positions', 'ref_contig_without_kmers_before_repeat', 'files_with_9+_samples', 'route:fasta_inputs']
+                                                'selfmap_exact', 'lowercase_ref_positions', 'ref_contig_without_kmers_before_repeat', 'files_with_9+_samples', 'route:fasta_inputs', 'references_of_80kb+']
             for t in ('quick', 'thorough')}
 FORCED_K = [5, 7, 9, 11, 15, 21, 31, 33, 41, 63]
 
@@ -48,8 +48,11 @@ def plan(tier, seed, rng, scale):
         # the input route without a stored file: `ska map ref.fa s0.fa s1.fa ...` builds at the default k (17, both strands)
         descs.insert(rng.randrange(len(descs)), {'k': 17, 'rc': True, 'kind': rng.choice(KINDS + ['random', 'pattern']), 'am': rng.random() < 0.4,
                                                  'rm': rng.random() < 0.5, 'seed': rng.getrandbits(32), 'fasta_route': True})
+    for i, hz in enumerate([80000, 300000] if tier == 'quick' else [80000, 300000, 140000, 300000, 600000, 80000]):
+        descs.insert(25 + 13 * i, {'k': rng.choice([21, 31, 33]), 'rc': rng.random() < 0.7, 'kind': 'random', 'am': i % 2 == 0, 'rm': False,
+                                   'seed': rng.getrandbits(32), 'huge': hz})
     for i, d in enumerate(descs):
-        d['chk'] = (i % 6 == 0)
+        d['chk'] = (i % 6 == 0) and not d.get('huge')
     return descs
 
 
@@ -74,9 +77,13 @@ def mutate(rng, s, nmut):
     return ''.join(s)
 
 
-def gen_ref(rng, k, kind, big=False):
+def gen_ref(rng, k, kind, big=False, huge=None):
     h = (k - 1) // 2
     contigs = []
+    if huge:
+        # tens to hundreds of kilobases: more matched k-mers, columns and records than any block or buffer of the writers
+        n1 = rng.randint(huge // 3, 2 * huge // 3)
+        return [G.rseq(rng, n1), G.rseq(rng, huge - n1)]
     if kind == 'selfmap':
         # repeat-free genome (checked), no N, upper case
         for _ in range(200):
@@ -145,9 +152,28 @@ def gen_ref(rng, k, kind, big=False):
     return contigs
 
 
-def gen_samples(rng, ref, k, kind, rcmode):
+def gen_samples(rng, ref, k, kind, rcmode, huge=None):
     h = (k - 1) // 2
     samples = []
+    if huge:
+        for si in range(2):
+            recs = []
+            for c in ref:
+                t = list(c)
+                for _ in range(len(t) // 150):
+                    t[rng.randrange(len(t))] = rng.choice('ACGT')
+                t = ''.join(t)
+                if si == 1:
+                    t = t[:rng.randint(len(t) // 2, len(t))]              # the tail of each contig unmatched
+                recs.append(M.rc(t) if rcmode and rng.random() < 0.5 else t)
+                if si == 0:
+                    # a second copy with other differences: ambiguity codes spread over the whole length
+                    t2 = list(c)
+                    for _ in range(len(t2) // 40):
+                        t2[rng.randrange(len(t2))] = rng.choice('ACGT')
+                    recs.append(''.join(t2))
+            samples.append(recs)
+        return samples
     if kind == 'selfmap':
         return [[c for c in ref]]
     if kind == 'pattern':
@@ -260,8 +286,8 @@ def setup(desc, ctx, res, binary):
     """Generate inputs, build the samples, read the table back.  Returns dict or None."""
     k, rcmode = desc['k'], desc['rc']
     rng = random.Random(desc['seed'])
-    ref = gen_ref(rng, k, desc['kind'], desc.get('big', False))
-    samples = gen_samples(rng, ref, k, desc['kind'], rcmode)
+    ref = gen_ref(rng, k, desc['kind'], desc.get('big', False), desc.get('huge'))
+    samples = gen_samples(rng, ref, k, desc['kind'], rcmode, desc.get('huge'))
     if desc.get('iupac_ref'):
         # (C05 only) a few reference bases replaced by ambiguity codes after the samples were derived
         r2 = random.Random(desc['seed'] ^ 0x1c0de)
@@ -314,6 +340,9 @@ def run_case(desc, ctx):
         th = ['--threads', [1, 1, 2, 3, 4][desc['seed'] % 5]]
         if len(names) >= 9 and variant == 'rel':
             res.count('files_with_9+_samples')
+        if desc.get('huge') and variant == 'rel':
+            res.count('references_of_80kb+')
+            res.see('huge_matched', matched)
         if desc['seed'] % 4 == 2:
             # output to a file that already exists and is longer than the new alignment
             ctx.write('map.out', '>old\n' + 'ACGT' * (sum(len(c) for c in ref) + 50) + '\n>older\nAC\n')
